@@ -176,6 +176,66 @@ def directory_doc():
             "steps": {"mk": {"run": mk, "in": {"tag": "tag"}, "out": ["o"]}, "ls": {"run": ls, "in": {"d": "d"}, "out": ["o"]}}}
 
 
+def _flatten(v):
+    out = []
+    for x in v:
+        if isinstance(x, list):
+            out += _flatten(x)
+        else:
+            out.append(x)
+    return out
+
+
+def _leaf(v, job_dir):
+    """protocol token of a list element / single value; None when the value is outside the model (records, directories)"""
+    if v is None:
+        return "n"
+    if isinstance(v, dict):
+        if v.get("class") == "File" and not v.get("secondaryFiles"):
+            sha = v.get("checksum", "sha1$")[5:] or (C.sha1_file(v["path"]) if v.get("path") and os.path.exists(v["path"]) else None)
+            return None if sha is None else f"f{hx(sha)}:{hx(v.get('path', 'p'))}"
+        return None
+    if isinstance(v, bool) or isinstance(v, (int, float, str)):
+        return "s" + hx(str(v))
+    return None
+
+
+def io_tokens(job: dict, outputs: dict, job_dir: str):
+    """[(name, token)] for every input and output value inside the model of get_property_value"""
+    toks = []
+    for name, v in list(job.items()) + list((outputs or {}).items()):
+        if isinstance(v, list):
+            items = [_leaf(x, job_dir) for x in _flatten(v)]
+            if any(i is None for i in items):
+                continue
+            toks.append((name, "l" + ";".join(items)))
+        else:
+            t = _leaf(v, job_dir)
+            if t is not None:
+                toks.append((name, t))
+    return toks
+
+
+def archive_io(path: str):
+    """what the main CreateAction of a real archive links to: sorted [(name, values, scalar-shaped?)] and File checksums"""
+    g = json.loads(zipfile.ZipFile(path).read("ro-crate-metadata.json"))["@graph"]
+    byid = {e["@id"]: e for e in g}
+    main_id = byid["./"].get("mainEntity", {}).get("@id")
+    pvs, files = [], []
+    for a in g:
+        if "CreateAction" in _types(a) and a.get("instrument", {}).get("@id") == main_id:
+            for r in a.get("object", []) + a.get("result", []):
+                e = byid.get(r["@id"], {})
+                if "PropertyValue" in _types(e) and not (isinstance(e.get("value"), list) and any(isinstance(x, dict) and "@id" in x and
+                                                                                                  byid.get(x["@id"], {}).get("@type") == "PropertyValue" for x in e["value"])):
+                    v = e.get("value")
+                    vals = [v] if not isinstance(v, list) else v
+                    pvs.append((e.get("name"), tuple("@" + x["@id"] if isinstance(x, dict) else x for x in vals), not isinstance(v, list)))
+                elif "File" in _types(e):
+                    files.append(e.get("sha1"))
+    return sorted(pvs), sorted(set(files))
+
+
 class C34(Property):
     pid = "C34"
     title = "Exported run provenance is self-contained and consistent"
@@ -205,7 +265,8 @@ class C34(Property):
     ]
     technique = "Lean 4 invariants of the provenance manager's bookkeeping over every update history + monitor of real exported archives"
     level_text = ("grade C (kernel): ids_unique / entity_under_own_id / hasPart_closed / file_entities_have_archive_entry are proved for every "
-                  "history of the manager's three kinds of updates; that real exports of generated workflow runs are valid, self-contained and "
+                  "history of the manager's three kinds of updates, io_values_represented for every history of run values handed to the manager "
+                  "(scalars, File tokens, lists; fresh uuids assumed); that real exports of generated workflow runs are valid, self-contained and "
                   "represent every input and output is checked on real archives (monitor), not proved")
     level_note = ("Lean kernel, axioms within {propext, Classical.choice, Quot.sound}; the bookkeeping model is hand-written; the Lean predicates are "
                   "evaluated on the graph of every exported archive")
@@ -245,6 +306,7 @@ class C34(Property):
         cases.append({"id": "tool", "dir": td, "doc": "tool.cwl", "job": "job.json", "name": "wf", "timeout": 900, "prov": True, "only_sf": True})
         ctx.corpus_replayed += 2
         lines, meta = [], []
+        io_lines, io_meta = [], []
         completed = 0
         for start in range(0, len(cases), 12):
             if start > 0 and ctx.time_left() < 200:
@@ -278,6 +340,9 @@ class C34(Property):
                     toks += [hx(i), "f1" if is_file else "f0", ",".join(hx(r) for r in refs) or "_"]
                 toks += ["names"] + [hx(nm) for nm in names]
                 lines.append(" ".join(toks))
+                iot = io_tokens(desc["job"], sf["out"], case["dir"])
+                io_lines.append("io" + "".join(f" {hx('#u' + str(k))} {hx(nm)} {tk}" for k, (nm, tk) in enumerate(iot)))
+                io_meta.append((case["id"], {nm for nm, _ in iot}, archive_io(pv["archive"])))
                 ids = [e[0] for e in ents]
                 meta.append((case["id"], len(set(ids)) == len(ids),
                              all(r in ids or _external(r) for _, _, rs in ents for r in rs),
@@ -286,7 +351,23 @@ class C34(Property):
         ctx.extra["runs_completed"] = completed
         ctx.extra["archives_checked"] = len(lines)
         if lines:
-            for (cid, u, c, f, nids, nfiles), out in zip(meta, ctx.lean("Drivers/C34.lean", lines)):
+            outs = ctx.lean("Drivers/C34.lean", lines + io_lines)
+            # the values of the run through the Lean manager model (`registerAll`) against what the real archive links from the run action
+            for (cid, names_in_model, (pvs, files)), out in zip(io_meta, outs[len(lines):]):
+                parts = dict(p.split(":", 1) for p in out.split(" ")) if out != "bad-op" else {}
+                mpv = []
+                for item in ([] if parts.get("pv", "_") == "_" else parts["pv"].split(";")):
+                    nm, vals = item.split("=")
+                    scalar = vals.endswith("!")
+                    vals = vals.rstrip("!")
+                    mpv.append((bytes.fromhex(nm).decode(), tuple([] if vals == "_" else [bytes.fromhex(v).decode() if v != "-" else "" for v in vals.split(",")]), scalar))
+                mfiles = sorted({bytes.fromhex(v).decode() for v in parts.get("files", "_").split(",")} if parts.get("files", "_") != "_" else set())
+                real_pv = [p for p in pvs if p[0] in names_in_model]
+                ctx.count("io-model-compared")
+                if sorted(mpv) != real_pv or not set(mfiles) <= set(files):
+                    ctx.disagree("manager value model (registerAll) vs the real archive",
+                                 f"document {cid}: archive links {real_pv} files {files}; Lean model {sorted(mpv)} files {mfiles}", {"op": "crate", "doc": cid})
+            for (cid, u, c, f, nids, nfiles), out in zip(meta, outs[:len(lines)]):
                 parts = dict(p.split(":") for p in out.split(" ")) if out != "bad-op" else {}
                 exp = {"unique": "1" if u else "0", "closed": "1" if c else "0", "files": "1" if f else "0"}
                 for k, v in exp.items():
